@@ -51,10 +51,11 @@ def GoodStep (c : Ctl) : Op → Prop
   | .delSlice _ _ => WF c
   | .svc v =>
       WF { c with svcs := upsertBy (fun x => x.ns = v.ns ∧ x.name = v.name) v c.svcs } ∧
-      SvcIrrelevant c v.host (alookup v.host c.smap) (some v)
+      SvcIrrelevant c v.host (alookup v.host c.smap) (some v) ∧ convNs c.nss v = v
   | .delSvc ns name =>
       WF c ∧ ∀ o, findSvc c.svcs ns name = some o → SvcIrrelevant c o.host (some o) none
   | .pod v =>
+      v.phase ≠ "F" ∧
       WF { c with pods := upsertBy (fun x => x.ns = v.ns ∧ x.name = v.name) v c.pods } ∧
       NoCachedAddr c ∧ (∀ c', stepC c (.pod v) = some c' → NoCachedAddr c') ∧ (PodGood c v ∨ PodLabelGood c v)
   | .delPod ns name =>
@@ -63,6 +64,8 @@ def GoodStep (c : Ctl) : Op → Prop
       NoCachedAddr c ∧ ∀ p ∈ c.pods, localityOf (upsertBy (fun x => x.name = v.name) v c.nodes) p = localityOf c.nodes p
   | .delNode name =>
       NoCachedAddr c ∧ ∀ p ∈ c.pods, localityOf (c.nodes.filter (·.name ≠ name)) p = localityOf c.nodes p
+  | .ns v => ∀ sv ∈ c.svcs, sv.ns ≠ v.name
+  | .delNs name => ∀ sv ∈ c.svcs, sv.ns ≠ name
   | .hold => False
   | .release => True
 
@@ -74,12 +77,12 @@ theorem handlers_preserve_inv (c : Ctl) (op : Op) (c' : Ctl)
   cases op with
   | slice v => exact slice_write_inv c v c' hstep hinv hgood.1 hgood.2.1
   | delSlice ns name => exact slice_delete_inv c ns name c' hstep hinv hgood
-  | svc v => exact svc_write_inv c v c' hstep hinv hgood.1 hgood.2
+  | svc v => exact svc_write_inv c v c' hstep hinv hgood.1 hgood.2.2 hgood.2.1
   | delSvc ns name => exact svc_delete_inv c ns name c' hstep hinv hgood.1 hgood.2
   | pod v =>
-    cases hgood.2.2.2 with
-    | inl hg => exact pod_write_inv c v c' hstep hinv hgood.1 hgood.2.1 (hgood.2.2.1 c' hstep) hg
-    | inr hg => exact pod_label_edit_inv c v c' hstep hinv hgood.1 hgood.2.1 hg
+    cases hgood.2.2.2.2 with
+    | inl hg => exact pod_write_inv c v c' hgood.1 hstep hinv hgood.2.1 hgood.2.2.1 (hgood.2.2.2.1 c' hstep) hg
+    | inr hg => exact pod_label_edit_inv c v c' hgood.1 hstep hinv hgood.2.1 hgood.2.2.1 hg
   | delPod ns name =>
     exact pod_delete_inv c ns name c' hstep hinv hgood.1 hgood.2.1 (hgood.2.2.1 c' hstep) hgood.2.2.2
   | node v =>
@@ -93,6 +96,13 @@ theorem handlers_preserve_inv (c : Ctl) (op : Op) (c' : Ctl)
       subst hstep
       exact nodes_change_inv c _ hinv hgood.1 hgood.2
     · cases hstep
+  | ns v =>
+    rw [ns_write_ctl c v hgood, Option.some.injEq] at hstep
+    subst hstep
+    exact hinv.of_nss _
+  | delNs name =>
+    rw [ns_delete_ctl c name c' hgood hstep]
+    exact hinv.of_nss _
   | hold => exact absurd hgood (fun h => h)
   | release =>
     simp only [stepC, Option.some.injEq] at hstep
@@ -103,14 +113,14 @@ theorem handlers_preserve_inv (c : Ctl) (op : Op) (c' : Ctl)
 theorem handlers_preserve_resync (c : Ctl) (op : Op) (c' : Ctl)
     (hs : ResyncSound c) (hgood : GoodStep c op) (hstep : stepC c op = some c') : ResyncSound c' := by
   cases op with
-  | slice v => exact slice_write_sound c v c' hstep hs hgood.2.2.1 hgood.1 hgood.2.2.2
+  | slice v => exact slice_write_sound c v c' hstep hs hgood.2.2.1 hgood.1 (fun o ho h1 h2 => (hgood.2.1 o ho h1 h2).1) hgood.2.2.2
   | delSlice ns name => exact slice_delete_sound c ns name c' hstep hs hgood
-  | svc v => exact svc_write_sound c v c' hstep hs
+  | svc v => exact svc_write_sound c v c' hstep hgood.2.2 hs
   | delSvc ns name => exact svc_delete_sound c ns name c' hstep hs
   | pod v =>
-    cases hgood.2.2.2 with
-    | inl hg => exact pod_write_sound c v c' hstep hs hgood.1 hg
-    | inr hg => exact pod_label_edit_sound c v c' hstep hs hg
+    cases hgood.2.2.2.2 with
+    | inl hg => exact pod_write_sound c v c' hgood.1 hstep hs hgood.2.1 hg
+    | inr hg => exact pod_label_edit_sound c v c' hgood.1 hstep hs hg
   | delPod ns name => exact pod_delete_sound c ns name c' hstep hs hgood.1 hgood.2.2.2
   | node v =>
     simp only [stepC, Option.some.injEq] at hstep
@@ -123,6 +133,13 @@ theorem handlers_preserve_resync (c : Ctl) (op : Op) (c' : Ctl)
       subst hstep
       exact hs
     · cases hstep
+  | ns v =>
+    rw [ns_write_ctl c v hgood, Option.some.injEq] at hstep
+    subst hstep
+    exact hs
+  | delNs name =>
+    rw [ns_delete_ctl c name c' hgood hstep]
+    exact hs
   | hold => exact absurd hgood (fun h => h)
   | release =>
     simp only [stepC, Option.some.injEq] at hstep
